@@ -592,6 +592,22 @@ def r6_en_passant_reader(ctx):
                         break
                 if val is not None:
                     break
+        if val is None:
+            # the arm's value goes through a local (e.g. an assertion sits between the decision and the return):
+            # evaluate the returning paths through the arm
+            from ..paths import returning_paths, NotLoopFree
+            try:
+                vals = set()
+                for pe in returning_paths(f):
+                    if head in pe.path:
+                        try:
+                            vals.add(fold(pe.ret()))
+                        except Unfoldable:
+                            vals.add(show(pe.ret()))
+                if len(vals) == 1:
+                    val = vals.pop()
+            except NotLoopFree:
+                pass
         table[kw] = val
     helper_calls = [b for b in sorted(cfg.reach) if f["blocks"][b]["term"]["k"] == "call" and (f["blocks"][b]["term"]["callee"].get("key") or "").endswith("square_shift_from_fen_unchecked")]
     targets = {"%s%d" % (chr(ord("a") + fl), rk): fl + 8 * (8 - rk) for fl in range(8) for rk in (3, 6)}
@@ -613,6 +629,9 @@ def r6_en_passant_reader(ctx):
     returns_no_square = any(s_["dst"] is not None and s_["dst"]["l"] == 0 and not s_["dst"]["p"] and s_["rv"]["op"] == "use" and s_["rv"]["a"][0].get("k") == "const" and s_["rv"]["a"][0].get("v") == NO_SQUARE
                             for b_ in f["blocks"] if not b_["cleanup"] for s_ in b_["stmts"])
     ok = table.get("-") == NO_SQUARE or ("-" not in table and returns_no_square)
+    if not ok and table.get("-") is None:
+        ctx.lost(rid, "the value parse_en_passant_square_shift returns for `-`")
+        return
     ctx.ob(rid, "dash-is-no-square", bool(ok), "" if ok else "`-` is decoded to %s, not NO_SQUARE" % table.get("-"), ctx.where(f), sample={"dash": table.get("-")})
 
 
